@@ -177,7 +177,8 @@ for nm, spec in (("__invert__", M.spec_bv_invert), ("copy", M.spec_bv_copy)):
         con.cases.append(c)
 
 for nm, spec in (("left", M.spec_bv_left), ("right", M.spec_bv_right)):
-    con = contract(f"cohdl._core._bit_vector:BitVector.{nm}", PROPS, status="assumed")
+    # (C17: BitField extracts nested fields of compile-time values with msb(rest=offset).lsb(width))
+    con = contract(f"cohdl._core._bit_vector:BitVector.{nm}", PROPS + ("C17",), status="assumed")
     for VS in (UShape, SShape, BVShape):
         c = Case(VS.kind.__name__, [VS("w", "v"), OptInt("width"), OptInt("rest")], spec)
 
